@@ -9,6 +9,7 @@
 #include "simfs/simstream.hpp"
 
 #include <kernel/runtime.hpp>
+#include <kernel/util/pack.hpp>
 #include <kernel/lafem/dense_vector.hpp>
 #include <kernel/lafem/dense_vector_blocked.hpp>
 #include <kernel/lafem/sparse_vector.hpp>
@@ -372,6 +373,45 @@ namespace
     }
   }
 
+  // Pack::encode/decode directly (the layer below Container::_serialize): raw and type-converting packing with and
+  // without byte swapping. decode(encode(x)) == x for representable values; the swapped encoding is the element-wise
+  // byte-reversed plain encoding; the byte count is count * element_size.
+  template<typename T_>
+  void pack_roundtrip(const std::vector<T_>& src, Pack::Type pt, const char* what)
+  {
+    const size_t n = src.size(), es = Pack::element_size(pt);
+    std::vector<unsigned char> plain(n * es + 64, 0xAB), swapped(n * es + 64, 0xCD);
+    const size_t b0 = Pack::encode(plain.data(), src.data(), plain.size(), n, pt, false);
+    const size_t b1 = Pack::encode(swapped.data(), src.data(), swapped.size(), n, pt, true);
+    if(b0 != n * es || b1 != n * es) sim::fail("PACK", std::string(what) + ": encode wrote " + std::to_string(b0) + "/" + std::to_string(b1) + " bytes for " + std::to_string(n) + " elements of " + std::to_string(es) + " bytes");
+    for(size_t i = n * es; i < plain.size(); ++i) if(plain[i] != 0xAB || swapped[i] != 0xCD) sim::fail("PACK", std::string(what) + ": encode wrote behind the packed data");
+    for(size_t i = 0; i < n; ++i) for(size_t k = 0; k < es; ++k)
+      if(plain[i * es + k] != swapped[i * es + (es - 1 - k)]) sim::fail("PACK", std::string(what) + ": byte-swapped encoding is not the byte-reversed plain encoding (element " + std::to_string(i) + ")");
+    std::vector<T_> d0(n + 2, T_(77)), d1(n + 2, T_(77));
+    const size_t c0 = Pack::decode(d0.data(), plain.data(), n, n * es, pt, false);
+    const size_t c1 = Pack::decode(d1.data(), swapped.data(), n, n * es, pt, true);
+    if(c0 != n * es || c1 != n * es) sim::fail("PACK", std::string(what) + ": decode consumed a wrong number of bytes");
+    for(size_t i = 0; i < n; ++i) if(d0[i] != src[i] || d1[i] != src[i]) sim::fail("PACK", std::string(what) + ": decode(encode(x)) != x at element " + std::to_string(i));
+    if(d0[n] != T_(77) || d0[n + 1] != T_(77) || d1[n] != T_(77)) sim::fail("PACK", std::string(what) + ": decode wrote behind the requested elements");
+  }
+
+  void pack_direct(Gen& g)
+  {
+    const size_t n = 1 + g.idx(40);
+    std::vector<double> vd(n); std::vector<float> vf(n);
+    std::vector<std::uint64_t> u64(n); std::vector<std::uint32_t> u32(n); std::vector<std::int64_t> i64(n); std::vector<int> i32(n);
+    for(size_t i = 0; i < n; ++i)
+    {
+      vd[i] = g.val(); vf[i] = float(g.val());
+      u64[i] = g.next() % 200u; u32[i] = std::uint32_t(g.next() % 200u);            // fit every unsigned width
+      i64[i] = std::int64_t(g.next() % 200u) - 100; i32[i] = int(g.next() % 200u) - 100;   // fit every signed width
+    }
+    pack_roundtrip(vd, Pack::Type::F64, "double as F64"); pack_roundtrip(vd, Pack::Type::F32, "double as F32");
+    pack_roundtrip(vf, Pack::Type::F64, "float as F64"); pack_roundtrip(vf, Pack::Type::F32, "float as F32");
+    for(Pack::Type t : {Pack::Type::U8, Pack::Type::U16, Pack::Type::U32, Pack::Type::U64}) { pack_roundtrip(u64, t, "uint64 as U*"); pack_roundtrip(u32, t, "uint32 as U*"); }
+    for(Pack::Type t : {Pack::Type::I8, Pack::Type::I16, Pack::Type::I32, Pack::Type::I64}) { pack_roundtrip(i64, t, "int64 as I*"); pack_roundtrip(i32, t, "int as I*"); }
+  }
+
   template<typename DT_, typename IT_>
   void run_types(int kind, Gen& g, const Shape& sh)
   {
@@ -414,6 +454,7 @@ std::string harness_run()
   sim::spawn("io", [=]() {
     Gen g(gseed);
     g.zero_per_16 = zero_per_16;
+    if((gseed & 3u) == 0u) pack_direct(g);
     switch(types)
     {
     case 0: run_types<double, std::uint64_t>(kind, g, sh); break;
